@@ -50,6 +50,7 @@ type CheckCfg struct {
 	Assumptions []string           `json:"assumptions"`  // free text, copied into evidence
 	Outside     []string           `json:"outside"`      // free text: outside the claim
 	Overlays    map[string]string  `json:"src_overlays"`
+	FuncStubs map[string]string `json:"func_stubs"` // engine-only replacement of a function under test by a harness function (native replay runs the real one)
 	HarnessFrom string `json:"harness_from"` // take the harness .go files from another property's directory
 	ValidateWitnesses int `json:"validate_witnesses"`
 	Monitor   []string `json:"monitor"` // harnesses whose assertions read engine-side monitors (lock-set / write-set): a counterexample cannot be replayed by the inert native runtime and is confirmed by the native_confirm test instead
@@ -200,7 +201,7 @@ func cmdCheck(args []string) int {
 	cfg := &vexec.Config{
 		MaxSteps: def(tc.MaxSteps, 2000000), MaxIter: def(tc.MaxIter, 5000), MaxDepth: def(tc.MaxDepth, 200),
 		MaxPaths: tc.MaxPaths, Workers: *workers, SplitDepth: def(tc.SplitDepth, 6), Solver: *solver,
-		TimeoutMs: def(tc.QueryMs, 20000), Params: tc.Params, Trace: *trace,
+		TimeoutMs: def(tc.QueryMs, 20000), Params: tc.Params, Trace: *trace, FuncStubs: c.FuncStubs,
 	}
 	if tc.TimeoutS > 0 {
 		cfg.Deadline = time.Now().Add(time.Duration(tc.TimeoutS) * time.Second)
